@@ -12,6 +12,16 @@ CHECKS = {
    ref="DESIGN.md 3.3, 4 C04",
    note=TB + " Entry contracts: non-nil receivers, header parsed from the same bytes, IKESAKey nil or fully populated; Iv/Padding never assigned by non-test code.",
    tech="static analysis: SSA dataflow with wrap-aware linear forms, dominator facts, loop-variant templates"),
+ "C17": dict(cat="proof",
+   text="Proof of a sufficient structural condition: (1) hash.Hash typestate by forward dataflow over every module function using a hash (Write only on a fresh object or after Reset with no Sum in between); (2) every IKECrypto method is receiver-pure (transitive mod-set, alias analysis for element writes); (3) IKESAKey fields are stored only by GenerateKeyForIKESA/NewIKESAKey and protect/unprotect/child-derivation mod-sets contain no SA field. Hence no operation leaves state that a later one reads.",
+   ref="DESIGN.md 3.5, 4 C17",
+   note=TB + " hash.Hash contract (Reset restores the keyed state, Sum does not change state); AES block cipher is stateless.",
+   tech="static analysis: typestate dataflow, mod-sets / who-may-write over the resolved call graph"),
+ "C18": dict(cat="proof",
+   text="Proof of a sufficient structural condition for interference freedom: package-level state is written only in init (direct stores plus an alias analysis with all 17 globals as sources, covering writes through derived pointers, map updates and external writers such as big.Int methods); global-reachable pointers escape only as immutable descriptors; no go/chan/sync/atomic/unsafe/reflect anywhere; decoders never write their input slices; the only external mutable global touched is crypto/rand.Reader.",
+   ref="DESIGN.md 3.4, 4 C18",
+   note=TB + " crypto/rand.Reader is concurrency-safe by contract; data-race freedom inside the standard library is not analysed.",
+   tech="static analysis: global-write / escape analysis (interprocedural alias analysis over SSA), import and instruction scan"),
  "C20": dict(cat="proof",
    text="Proof of a sufficient structural condition: an interprocedural alias analysis (type-keyed heap abstraction) shows no decoded field or API result aliases a decoder's input slice except the documented IKEHeader.PayloadBytes; over the encode scope nothing is written through message-owned memory, the field mod-set is header bookkeeping only, returned buffers are fresh, no random/time/map-order dependence is reachable; encryptMsg's transitive mod-set is the payload list, header bookkeeping and the fresh Encrypted payload.",
    ref="DESIGN.md 3.4, 4 C20",
